@@ -263,14 +263,23 @@ func (ex *Exec) runInit(pkg *ssa.Package, gi *globalInit) {
 	}()
 	ex.cur = &funcRun{key: "init", fn: initFn, inlined: map[string]bool{}, libCalls: map[string]bool{},
 		unmodelled: map[string]bool{}, contractsUsed: map[string]bool{}, trustedUsed: map[string]bool{},
-		siteIDs: map[*ssa.Function]map[ssa.Instruction]int{}, ensuresAnteReached: map[string]bool{}}
+		siteIDs: map[*ssa.Function]map[ssa.Instruction]int{}, ensuresAnteReached: map[string]bool{}, allocObjs: map[string]*Object{}, strLens: map[Key]int64{}}
 	st := ex.newState()
 	st.paramVals = map[string]Value{}
+	if ex.initAlloc == 0 {
+		ex.initAlloc = 1
+	}
+	st.alloc = IntLit(ex.initAlloc)
+	st.alloc0 = IntLit(0)
+	var nb int64 = 1000 + ex.initAlloc*100
+	st.nbox = &nb
 	// the init guard is false on entry
 	fr := &Frame{fn: initFn, block: initFn.Blocks[0], regs: map[ssa.Value]Value{}, visits: map[*ssa.BasicBlock]int{}}
 	st.frames = []*Frame{fr}
 	ex.inInit = true
-	defer func() { ex.inInit = false }()
+	savedMerge := ex.Merge
+	ex.Merge = false
+	defer func() { ex.inInit = false; ex.Merge = savedMerge }()
 	for _, m := range pkg.Members {
 		if g, ok := m.(*ssa.Global); ok {
 			obj := ex.globalObjectRaw(g)
@@ -297,8 +306,21 @@ func (ex *Exec) runInit(pkg *ssa.Package, gi *globalInit) {
 		}
 	}
 	gi.done = true
-	ex.initHeaps = mergeHeaps(ex.initHeaps, st.heaps)
 	ex.initFacts = append(ex.initFacts, st.pc...)
+	ex.initHeaps = mergeHeaps(ex.initHeaps, st.heaps)
+	if a, ok := st.alloc.Int64(); ok {
+		ex.initAlloc = a
+	}
+	if ex.initMem == nil {
+		ex.initMem = map[*Object]Value{}
+		ex.initBoxes = map[int64]Value{}
+	}
+	for o, v := range st.mem {
+		ex.initMem[o] = v
+	}
+	for k, v := range st.boxes {
+		ex.initBoxes[k] = v
+	}
 }
 
 func mergeHeaps(a, b map[string]*Term) map[string]*Term {
@@ -331,4 +353,22 @@ func (ex *Exec) globalObjectRaw(g *ssa.Global) *Object {
 		ex.globals[key] = obj
 	}
 	return obj
+}
+
+// RunInits executes the initialisers of all module packages (once, at session start).
+func (ex *Exec) RunInits() {
+	for _, p := range ex.Prog.AllPackages() {
+		if !strings.HasPrefix(p.Pkg.Path(), ex.ModulePath) {
+			continue
+		}
+		if ex.ginit == nil {
+			ex.ginit = map[*ssa.Package]*globalInit{}
+		}
+		if ex.ginit[p] != nil {
+			continue
+		}
+		gi := &globalInit{vals: map[*ssa.Global]Value{}}
+		ex.ginit[p] = gi
+		ex.runInit(p, gi)
+	}
 }
